@@ -204,6 +204,8 @@ Definition check_doc (prop : Z) (inp impl : sx) : sx :=
             (* C07 at the request: the result is a function of the per-run outcomes alone (no run or sample appears or
                disappears with the schedule: cancellation instants, completion order) *)
             else if (prop =? 7) && negb (c15_spec runs e2es status found (negb (resnil =? 0)) o) then [7; 3]
+            (* C10 at the request: a failure inside any run or probe makes the request return an error exposing it, and no result *)
+            else if (prop =? 10) && negb (c15_spec runs e2es status found (negb (resnil =? 0)) o) then [10; 5]
             else match o with
                  | None => []
                  | Some d =>
